@@ -623,6 +623,9 @@ func (e *Engine) load(place *Term, ctx *Ctx, at ssa.Value) *Term {
 			continue
 		}
 		visible = append(visible, c)
+		if c.ex && !c.w.Weak && !merging[c.w] && isInitStore(c.w) && (atInstr == nil || c.w.Fn != atInstr.Parent() || before(c.w.Instr, atInstr)) {
+			must = true
+		}
 		if c.ex && !c.w.Weak && !merging[c.w] {
 			if atInstr != nil && c.w.Fn == atInstr.Parent() {
 				if before(c.w.Instr, atInstr) {
@@ -846,4 +849,47 @@ func derefType(t *Term) types.Type {
 		return p.Elem()
 	}
 	return nil
+}
+
+// isInitStore reports whether w initialises a field of a freshly allocated
+// object before the object can be seen by anyone else: the store is in the
+// allocating block, after the allocation, and the pointer has not yet been
+// passed, stored or returned. Such a store has happened whenever the object
+// is reachable, so the field's zero value is never observed.
+func isInitStore(w *Write) bool {
+	if w.BaseT == nil || w.BaseT.Op != OpNew {
+		return false
+	}
+	al, ok := w.BaseT.Val.(*ssa.Alloc)
+	if !ok || w.Instr.Block() != al.Block() || w.Fn != al.Parent() {
+		return false
+	}
+	ia, iw := instrIndex(al), instrIndex(w.Instr)
+	if iw <= ia {
+		return false
+	}
+	for _, in := range al.Block().Instrs[ia+1 : iw] {
+		switch x := in.(type) {
+		case ssa.CallInstruction:
+			for _, a := range x.Common().Args {
+				if a == ssa.Value(al) {
+					return false
+				}
+			}
+			if x.Common().Value == ssa.Value(al) {
+				return false
+			}
+		case *ssa.Store:
+			if x.Val == ssa.Value(al) {
+				return false
+			}
+		case *ssa.MakeInterface:
+			if x.X == ssa.Value(al) {
+				return false
+			}
+		case *ssa.Return:
+			return false
+		}
+	}
+	return true
 }
